@@ -302,11 +302,83 @@ def evolve_rows(spec, seq, rows, links):
     return rows, links
 
 
+def evolve_rows_hinted(spec, final, seq, rows, links):
+    """Reference rows for the hinted path: the hint is computed from (start,
+    target) only, so what matters is each field's start and final definition.
+    The developer-supplied initial (for placeholders) is the last initial the
+    edit sequence gave for that field."""
+    rows = copy.deepcopy(rows)
+    links = copy.deepcopy(links)
+    last_initial = {}
+    cur = spec
+    for mut in seq:
+        if mut['kind'] == 'AddField' and mut.get('initial') is not None:
+            last_initial[mut['field']['uid']] = mut['initial']
+        if mut['kind'] == 'ChangeField' and mut.get('initial') is not None:
+            f0 = S.get_field(S.get_model(cur, mut['app'], mut['model']), mut['name'])
+            last_initial[f0['uid']] = mut['initial']
+        cur = R.apply(cur, mut, strict=False)
+    start_fields = {}
+    for a, n, m in S.iter_models(spec):
+        for f in m['fields']:
+            start_fields[f['uid']] = f
+    final_models = {m['uid']: m for a, n, m in S.iter_models(final)}
+    out_rows = {}
+    for a, n, m0 in S.iter_models(spec):
+        m1 = final_models.get(m0['uid'])
+        if m1 is None:
+            continue
+        new = []
+        for r in rows.get(m0['uid'], []):
+            d = {'id': r['id']}
+            for f in m1['fields']:
+                if f['kind'] == 'ManyToMany':
+                    continue
+                f0 = start_fields.get(f['uid'])
+                if f0 is None or f0['kind'] == 'ManyToMany':
+                    # added column: initial only if the hint had to ask for one
+                    if not f['null'] and f['uid'] in last_initial:
+                        d[f['uid']] = initial_stored(f, last_initial[f['uid']])
+                    else:
+                        d[f['uid']] = None
+                else:
+                    v = r.get(f['uid'])
+                    if v is not None and (f0['kind'] != f['kind'] or
+                                          any(f0[k] != f[k] for k in
+                                              ('max_length', 'max_digits', 'decimal_places'))):
+                        v = sqlite_store(decl_type(f), v)
+                    if v is None and f0['null'] and not f['null'] and f['uid'] in last_initial:
+                        v = initial_stored(f, last_initial[f['uid']])
+                    d[f['uid']] = v
+            new.append(d)
+        out_rows[m0['uid']] = new
+    out_links = {}
+    for a, n, m1 in S.iter_models(final):
+        for f in m1['fields']:
+            if f['kind'] == 'ManyToMany':
+                f0 = start_fields.get(f['uid'])
+                out_links[f['uid']] = links.get(f['uid'], []) if f0 is not None and \
+                    f0['kind'] == 'ManyToMany' else []
+    return out_rows, out_links
+
+
 # ---------------------------------------------------------------------------
 # running a case
 # ---------------------------------------------------------------------------
 
 def insert_rows(spec, rows, links, execute):
+    """All rows in one transaction (foreign keys are DEFERRABLE INITIALLY
+    DEFERRED, so forward references are fine inside it)."""
+    execute('BEGIN')
+    try:
+        _insert_rows(spec, rows, links, execute)
+    except Exception:
+        execute('ROLLBACK')
+        raise
+    execute('COMMIT')
+
+
+def _insert_rows(spec, rows, links, execute):
     for a, n, m in S.iter_models(spec):
         t = S.table_of(a, m)
         for r in rows.get(m['uid'], []):
@@ -590,7 +662,10 @@ def run_case(case, want_rows=True, alias='default', batch=True):
     # rows
     if want_rows:
         try:
-            exp_rows, exp_links = evolve_rows(spec, seq, rows, links)
+            if case['mode'] == 'hinted':
+                exp_rows, exp_links = evolve_rows_hinted(spec, final, seq, rows, links)
+            else:
+                exp_rows, exp_links = evolve_rows(spec, seq, rows, links)
             act_rows, act_links, problems = read_rows(final, ex, set(actual))
             res['row_atoms'] = compare_rows(final, act_rows, act_links, exp_rows, exp_links)
             res['fk_check'] = [tuple(r) for r in ex('PRAGMA foreign_key_check')]
